@@ -11,8 +11,10 @@ EXTENDS Queue, Json, IOUtils
 Rec == ndJsonDeserialize(IOEnv.TRACE)
 Has(r, f) == f \in DOMAIN r
 
-VARIABLES l, sh, th, ob, g, gc, ex, sum
-vars == <<l, sh, th, ob, g, gc, ex, sum>>
+VARIABLES l, sh, th, ob, g, gc, ex, sum,
+          pure     \* the model run from the start of the execution on the observed calls, never re-anchored:
+                   \* what the queue of the pinned design would hold (known findings are judged against it)
+vars == <<l, sh, th, ob, g, gc, ex, sum, pure>>
 
 QmapOf(os) == [i \in Ids |-> IF \E k \in DOMAIN os : os[k].id = i
                              THEN os[CHOOSE k \in DOMAIN os : os[k].id = i] ELSE NoOrder]
@@ -25,7 +27,7 @@ AddFails(s, fs) ==
 Fail(mon, line) == [mon |-> mon, line |-> line, sc |-> ex.sc, run |-> ex.run]
 
 Init ==
-  /\ l = 1 /\ sh = QEmpty /\ ob = QEmpty /\ th = <<>>
+  /\ l = 1 /\ sh = QEmpty /\ ob = QEmpty /\ th = <<>> /\ pure = QEmpty
   /\ g = QGhostInit(<<>>) /\ gc = QConcInit({}, QEmpty)
   /\ ex = [sc |-> -1, run |-> -1, drift |-> 0, single |-> FALSE, pre |-> QEmpty, call |-> <<>>]
   /\ sum = [execs |-> 0, ops |-> 0, calls |-> 0, builds |-> 0, seqjudged |-> 0, drifts |-> {}, fails |-> {}, kf |-> {}]
@@ -38,7 +40,7 @@ InitialOrder(o) ==    \* order of the initial tickets (from_vec pushes in list o
 DoReset ==
   /\ Line.k = "reset"
   /\ LET o == ObsOf(Line.st) IN
-     /\ sh' = o /\ ob' = o
+     /\ sh' = o /\ ob' = o /\ pure' = o
      /\ th' = [t \in 1..Line.n |-> QIdle]
      /\ g' = [fifo |-> o.tickets, content |-> o.qmap]
      /\ gc' = QConcInit(1..Line.n, o)
@@ -52,7 +54,7 @@ DoCall ==
      /\ th' = IF ex.drift = 0 /\ th[t].pc = "idle" THEN [th EXCEPT ![t] = QBegin(th[t], Line.c)] ELSE th
      /\ gc' = QConcCall(gc, t, Line.c)
      /\ ex' = [ex EXCEPT !.pre = ob, !.call[t] = Line.c]
-  /\ UNCHANGED <<sh, ob, g, sum>>
+  /\ UNCHANGED <<sh, ob, g, sum, pure>>
 
 ObAfter(o, e) ==
   LET o2 == IF Has(e, "m") THEN [o EXCEPT !.qmap = QmapOf(e.m)] ELSE o
@@ -74,7 +76,7 @@ DoOp ==
         /\ sum' = AddFails([sum EXCEPT !.ops = @ + 1,
                                         !.drifts = IF ok \/ Cardinality(@) >= MaxFails THEN @ ELSE @ \cup {[line |-> l, sc |-> ex.sc, run |-> ex.run]}],
                            IF QMon_cover(o2, g2) THEN {} ELSE {Fail("C08", l)})
-  /\ UNCHANGED g
+  /\ UNCHANGED <<g, pure>>
 
 RetEq(m, r) ==
   /\ m.t = r.t
@@ -95,14 +97,19 @@ DoRet ==
          predicted == ex.drift = 0 /\ th[t].pc = "idle" /\ RetEq(th[t].ret, r)
          \* single-threaded: the model runs the whole call from the observed pre-state (robust
          \* against a different order of the steps inside the call)
-         macro == LET run == QRun(ex.pre, c, 50) IN ~run.hang /\ RetEq(run.me.ret, r) /\ run.sh = ob
-         v  == IF ex.single /\ t = 1 THEN QVerdict(g, c, r, macro, QHasStale(ex.pre)) ELSE {}
+         \* single-threaded: the pinned design runs the whole call from ITS state (robust against a
+         \* different order of the steps inside the call, and not fooled by stale tickets that only
+         \* the code under test leaves behind)
+         prun  == QRun(pure, c, 50)
+         macro == ~prun.hang /\ RetEq(prun.me.ret, r)
+         v  == IF ex.single /\ t = 1 THEN QVerdict(g, c, r, macro, QHasStale(pure)) ELSE {}
          extra == (IF r.t = "panic" THEN {"PANIC"} ELSE {})
                   \cup (IF r.t = "list" /\ ~SortedByTs(r.orders) THEN {"C19"} ELSE {})
                   \cup (IF g2.bad # {} THEN {"C08"} ELSE {})
      IN /\ gc' = g2
         /\ g' = IF ex.single /\ t = 1 THEN QGhostNext(g, c, r) ELSE g
         /\ th' = [th EXCEPT ![t] = QIdle]
+        /\ pure' = IF ex.single /\ t = 1 /\ ~prun.hang THEN prun.sh ELSE pure
         /\ ex' = IF predicted \/ ex.drift # 0 THEN ex ELSE [ex EXCEPT !.drift = l]
         /\ sum' = AddFails([sum EXCEPT !.calls = @ + 1,
                                         !.seqjudged = IF ex.single /\ t = 1 THEN @ + 1 ELSE @,
@@ -117,7 +124,7 @@ DoEnd ==
   /\ LET o2 == ObsOf(Line.st) IN
      sum' = AddFails(sum, (IF o2 = ob THEN {} ELSE {Fail("TOOL", l)})
                           \cup (IF Line.drained /\ ~QMon_drained(o2, gc) THEN {Fail("C08", l)} ELSE {}))
-  /\ UNCHANGED <<sh, th, ob, g, gc, ex>>
+  /\ UNCHANGED <<sh, th, ob, g, gc, ex, pure>>
 
 (* construction paths: same orders; list and text forms keep the input order / timestamp order *)
 BuildOk(b) ==
@@ -136,7 +143,7 @@ DoBuild ==
   /\ sum' = LET s2 == [sum EXCEPT !.builds = @ + 1] IN
             IF BuildOk(Line) THEN s2
             ELSE AddFails(s2, {[mon |-> "C19", line |-> l, sc |-> Line.sc, run |-> 0]})
-  /\ UNCHANGED <<sh, th, ob, g, gc, ex>>
+  /\ UNCHANGED <<sh, th, ob, g, gc, ex, pure>>
 
 Next == /\ l <= Len(Rec) /\ l' = l + 1 /\ (DoReset \/ DoCall \/ DoOp \/ DoRet \/ DoEnd \/ DoBuild)
 Spec == Init /\ [][Next]_vars
